@@ -15,53 +15,44 @@ followed to their single or reaching definition.
 Four closure calls, four `if` blocks and one table-driven loop are therefore
 the same thing to R3 and R7.
 
-R1  to_sql is pure (effects): every attribute of `self` mutated in code
-    reachable from `to_sql` is re-initialised on every path before its first
-    mutation in that call.  One named exception: Filter._normalize rewrites
-    str attributes to one-element lists under an isinstance(..., str) guard —
-    an idempotent normalisation.
-R2  empty-collection unpack (T-GUARD), conditional: IF a collection is
-    unpacked with `a, b = …zip(*xs)` THEN xs is known to be non-empty there:
-    the site is evaluated under a guard that implies it, or on every CFG path
-    to it a test sends the empty case elsewhere and xs is not re-bound after
-    that test.  A tree without such a site satisfies the rule (R3 then decides
-    the flattening that replaced it); a positive control on embedded examples
-    keeps the matcher honest.
-R3  placeholders = parameters (symbolic count): the list of pairs is the
-    local the returned WHERE text is joined from; every builder's result must
-    be added to it; for each pair entering it (append / += / extend / list
-    literal / unrolled comprehension / returned list) the number of `?` in the
-    text equals the number of parameters, as linear forms over len(<list>)
-    (', '.join('?' * len(xs)), ','.join(['?'] * n) with n = len(xs),
-    ', '.join('?' for _ in xs), text helpers followed into their return; an
-    optional numeric field of the filter counts as one scalar).  A scalar
-    bound min_<c> / max_<c> is compared with column <c> by >= / <=, and every
-    numeric bound of the filter is pushed by some condition.  Flatten step, by
-    abstract evaluation of the returned pair (zip(*pairs) + nested
-    comprehension, comprehensions over the pairs, an explicit loop with
-    append / extend / +=, chain.from_iterable, sum(..., [])): the text is
-    ' AND '.join(<texts in order>), the parameters are the groups flattened in
-    order with scalars wrapped; `return '', []` only when the list is empty.
-    origin_* / destination_* filters constrain their own column.  Query-level
-    blocks push as many parameters as placeholders.
-R4  column <-> field agreement: SELECT list and row indices used by from_row
-    agree by name; ORDER BY present on the unconditional path.
-R5  spatial compatibility rule counts the four spatial kinds in each of the
-    three positions.
-R6  date bounds inclusive; every-nth anchored at the start day; limit/offset
-    (module-level names bound once to a literal / literal constructor call,
-    e.g. `_EPOCH = date(1970, 1, 1)`, are read as that value).
-R7  is-set tests of optional numerics (`int | None`, `float | None` fields of
-    Filter and the query classes) are made against None itself, never by
-    truthiness — wherever the truth value of the field decides something: if /
-    while / conditional expression / assert / comprehension filter, `not x`,
-    `x and …`, `x or default`, bool(x); the field may reach the test through a
-    table-driven loop or comprehension (expanded view), a local, or the
-    parameter of a helper.
-    Bounding-box bounds reach the SQL parameters exactly as given (BoundingBox
-    is a plain value; no method rewrites its fields).
-R8  each query iterates a cursor created in the call that runs it; SQL and
-    parameters come from one to_sql() call.
+R1  to_sql is pure.  Effects: every attribute of `self` mutated in code reachable from `to_sql` is
+    re-initialised before its first mutation in that call - a reset (or a call of a helper that always resets)
+    dominates the mutation, or the mutation sits in a helper every call site of which is covered in the same sense
+    (interprocedural).  One named exception: Filter._normalize rewrites str attributes to one-element lists under
+    an isinstance(..., str) guard.  By evaluation: each query class's to_sql run twice on the same object gives the
+    same statement and parameters, and the parameter list handed out by one call is not changed by a later call
+    made after a setting was changed (queries run lazily).
+R2  empty-collection unpack (T-GUARD), conditional: IF a collection is unpacked with `a, b = …zip(*xs)` THEN xs is
+    known to be non-empty there: it is a display with at least one element (inline, or bound on every path and not
+    emptied since), the site is evaluated under a guard that implies it, or on every CFG path to it a test sends
+    the empty case elsewhere and xs is not re-bound after that test.  Positive control on embedded examples.
+R3  placeholders = parameters.  Symbolic count on the expanded view (see above) for every pair entering the list
+    the WHERE text is joined from, and the flatten step by abstract evaluation.  By evaluation: Filter.to_sql is run
+    by the checker's interpreter on a table of filters (every attribute alone with ordinary and zero values, single
+    strings and lists, every region type in every position, legal mixes) and must return exactly the documented
+    conditions, each with its own parameters in placeholder order (conjuncts compared as a multiset: AND commutes),
+    ('', []) for a filter without conditions, the same answer when asked twice; a legal filter is never refused.
+    Query-level blocks whose counts cannot be followed symbolically are decided by R6's evaluated statements.
+R4  what the database is asked, by evaluation of Query / CountQuery / FrequentFlightQuery.to_sql on a grid of
+    settings: select list, joins (either orientation of `x = y`), ORDER BY departure time for every setting, the
+    count query over the same joins and conditions, frequent routes counted per od_pair in descending order with
+    LIMIT (default 20); SQL compared as token sequences clause by clause (case and layout do not matter).
+    from_row is run on a row of column tokens: every field comes from the column of its own name, departure and
+    arrival through a from-epoch-seconds-as-UTC conversion.
+R5  spatial compatibility rule, by evaluation: Filter._normalize run on filters with every count pattern (0 / 1 / 2
+    and a few 3 / 4) of region types per position, unset written as None or [], set as list or single string: it
+    refuses exactly the combinations the documentation refuses, and leaves single strings as one-element lists.
+R6  by the same evaluation: one WHERE conjunct per condition with its own parameters - start date inclusive from
+    00:00 UTC, end date strictly before 00:00 UTC of the following day (the interpreter models the process's local
+    zone as UTC+05:45, so a bound that depends on it shows), the sampling fraction, every n-th day counted from the
+    start day or from the first day in the data, the filter's conditions; LIMIT / OFFSET after ORDER BY in that
+    order; legal boundary settings accepted, the documented illegal ones refused.
+R7  is-set tests of optional numerics (`int | None`, `float | None` fields of Filter and the query classes) are
+    made against None itself, never by truthiness (expanded view; through locals and helper parameters).
+    Bounding-box bounds reach the SQL parameters exactly as given (BoundingBox is a plain value).
+R8  each query iterates a cursor created in the call that runs it; SQL and parameters come from one to_sql() call;
+    what _yield_results yields is <result type>.from_row(row) for every row of <cursor>.execute(<sql>, <params>)
+    (for loop with or without locals, `yield from` / returned generator or list comprehension).
 """
 
 from __future__ import annotations
@@ -134,6 +125,64 @@ def rule_pure(ctx):
         for f in reach:
             for a, st in _resets(f):
                 resets.setdefault(a, []).append((f, st))
+        doms = {}
+
+        def dom_of(f):
+            if f.qualname not in doms:
+                doms[f.qualname] = cfgs[f.qualname].dominators(edge_ok=lambda a, b, lab: lab != 'e')
+            return doms[f.qualname]
+
+        def call_nodes(f, callee):
+            return [n for n in cfgs[f.qualname].nodes if n.stmt is not None and n.kind == 'stmt'
+                    and any(resolve_call(prog, f, c) == callee for c in calls_in(n.stmt))]
+
+        def must_reset(f, attr, depth=0):
+            """a reason why self.<attr> is re-bound to a fresh value on every normal path through f, or None"""
+            g, dom = cfgs[f.qualname], dom_of(f)
+            at_exit = dom.get(g.exit, set())
+            for rf, rst in resets.get(attr, []):
+                if rf == f:
+                    rn = g.nodes_of(rst)
+                    if rn and rn[0] in at_exit:
+                        return f'`{norm(rst)}`'
+            if depth < 4:
+                for h in reach:
+                    if h is not f and any(n.id in at_exit for n in call_nodes(f, h)):
+                        r = must_reset(h, attr, depth + 1)
+                        if r:
+                            return r
+            return None
+
+        def covered(f, mn, attr, depth):
+            """a reason why self.<attr> has been re-initialised in this to_sql() call whenever the CFG nodes `mn` of f
+            run: a reset (or a call of a helper that always resets) dominates them in f, or f is a helper and every one
+            of its call sites in the code reachable from to_sql is covered in the same sense"""
+            if not mn:
+                return None
+            g, dom = cfgs[f.qualname], dom_of(f)
+            for rf, rst in resets.get(attr, []):
+                if rf == f:
+                    rn = g.nodes_of(rst)
+                    if rn and all(rn[0] in dom[x] for x in mn):
+                        return f'reset `{norm(rst)}` dominates the mutation'
+            for h in reach:
+                if h is f:
+                    continue
+                for n in call_nodes(f, h):
+                    if all(n.id in dom[x] for x in mn):
+                        r = must_reset(h, attr)
+                        if r:
+                            return f'`{n.text()[:40]}` dominates the mutation and always runs {r}'
+            if f is ts or depth >= 4:
+                return None
+            sites = [(h, n) for h in reach if h is not f for n in call_nodes(h, f)]
+            if not sites:
+                return None
+            whys = [covered(h, [n.id], attr, depth + 1) for h, n in sites]
+            if all(whys):
+                return f'every call of {f.name} ({len(sites)}) comes after the reset: {whys[0]}'
+            return None
+
         found = 0
         for f in reach:
             for attr, st, how in _mutations(f):
@@ -149,30 +198,13 @@ def rule_pure(ctx):
                            else 'to_sql rewrites attributes of the query object: a second call sees different state',
                            line=st.lineno)
                     continue
-                ok = False
                 why = (f'self.{attr} is mutated ({how}) during to_sql but never re-initialised in that call: '
                        'building the SQL twice accumulates conditions/parameters')
                 g = cfgs[f.qualname]
-                mn = g.nodes_of(st)
-                dom = g.dominators(edge_ok=lambda a, b, lab: lab != 'e')
-                for rf, rst in resets.get(attr, []):
-                    if rf == f:
-                        rn = g.nodes_of(rst)
-                        if rn and mn and all(rn[0] in dom[x] for x in mn):
-                            ok, why = True, f'reset `{norm(rst)}` dominates the mutation'
-                    else:
-                        # reset in a helper: helper call dominates the mutation, reset dominates helper exit
-                        gr = cfgs[rf.qualname]
-                        domr = gr.dominators(edge_ok=lambda a, b, lab: lab != 'e')
-                        rn = gr.nodes_of(rst)
-                        if not rn or rn[0] not in domr.get(gr.exit, set()):
-                            continue
-                        for n in g.nodes:
-                            if n.stmt is not None and n.kind == 'stmt' and any(
-                                    resolve_call(prog, f, c) == rf for c in calls_in(n.stmt)):
-                                if mn and all(n.id in dom[x] for x in mn):
-                                    ok, why = True, (f'`{n.text()[:40]}` dominates the mutation and always runs '
-                                                     f'`{norm(rst)}`')
+                got = covered(f, g.nodes_of(st), attr, 0)
+                ok = got is not None
+                if ok:
+                    why = got
                 ctx.ob('C14-R1', f, f'{cls.name}.to_sql: self.{attr} {how} at `{norm(st)[:50]}`', ok, why,
                        line=st.lineno)
         if cls.name != 'Filter':
@@ -238,13 +270,23 @@ def _is_str(e):
     return isinstance(e, ast.Constant) and isinstance(e.value, str)
 
 
+def _is_num(e):
+    return isinstance(e, ast.Constant) and isinstance(e.value, (int, float)) and not isinstance(e.value, bool)
+
+
 class _Fold(ast.NodeTransformer):
+    """constant folding of what a reader folds at sight: literal fields of f-strings (strings, and numbers written
+    with no format spec: str(v) is what the f-string inserts), nested f-strings, 'a' + 'b', integer arithmetic over
+    literals (2 ** 63, 2 ** 64 - 1), slices of literals, getattr(x, '<literal>')"""
+
     def visit_JoinedStr(self, n):
         self.generic_visit(n)
         parts = []
         for v in n.values:
             if isinstance(v, ast.FormattedValue) and v.conversion == -1 and v.format_spec is None and _is_str(v.value):
                 v = v.value
+            elif isinstance(v, ast.FormattedValue) and v.conversion == -1 and v.format_spec is None and _is_num(v.value):
+                v = ast.copy_location(ast.Constant(str(v.value.value)), v)
             if _is_str(v) and parts and _is_str(parts[-1]):
                 parts[-1] = ast.copy_location(ast.Constant(parts[-1].value + v.value), parts[-1])
             else:
@@ -258,6 +300,23 @@ class _Fold(ast.NodeTransformer):
         self.generic_visit(n)
         if isinstance(n.op, ast.Add) and _is_str(n.left) and _is_str(n.right):
             return ast.copy_location(ast.Constant(n.left.value + n.right.value), n)
+        if _is_num(n.left) and _is_num(n.right) and isinstance(n.left.value, int) and isinstance(n.right.value, int):
+            a, b = n.left.value, n.right.value
+            v = None
+            if isinstance(n.op, ast.Add):
+                v = a + b
+            elif isinstance(n.op, ast.Sub):
+                v = a - b
+            elif isinstance(n.op, ast.Mult) and abs(a) < 2 ** 70 and abs(b) < 2 ** 70:
+                v = a * b
+            elif isinstance(n.op, ast.Pow) and 0 <= b <= 128 and abs(a) <= 16:
+                v = a ** b
+            elif isinstance(n.op, ast.LShift) and 0 <= b <= 128 and abs(a) < 2 ** 16:
+                v = a << b
+            elif isinstance(n.op, ast.FloorDiv) and b != 0:
+                v = a // b
+            if v is not None and v >= 0:
+                return ast.copy_location(ast.Constant(v), n)
         return n
 
     def visit_Subscript(self, n):
@@ -422,6 +481,7 @@ class _Expander:
     def run(self):
         fn = self.fn
         fn.body = self.block(fn.body)
+        fn = self.fn = _Fold().visit(fn)
         _CompUnroll(fn).visit(fn)
         _PairLower(self.prog, self.fi.module).visit(fn)
         ast.fix_missing_locations(fn)
@@ -715,6 +775,15 @@ def rebound(xs, ys):
     xs = ys
     a, b = zip(*xs)
     return a, b
+def display(p, q):
+    xs = [p, q]
+    a, b = (sum(c) for c in zip(*xs))
+    return a, b
+def emptied(p, q):
+    xs = [p, q]
+    xs.clear()
+    a, b = zip(*xs)
+    return a, b
 '''
 
 
@@ -779,8 +848,30 @@ def _flat_targets(t):
     return [t]
 
 
+def _nonempty_display(v) -> bool:
+    """a list / tuple / set display (or list(...) / tuple(...) / sorted(...) of one) with at least one plain element"""
+    while isinstance(v, ast.Call) and isinstance(v.func, ast.Name) and v.func.id in ('list', 'tuple', 'sorted') \
+            and len(v.args) == 1 and not any(k.arg != 'key' and k.arg != 'reverse' for k in v.keywords):
+        v = v.args[0]
+    return isinstance(v, (ast.List, ast.Tuple, ast.Set)) and any(not isinstance(e, ast.Starred) for e in v.elts)
+
+
+def _establishes(node, xs) -> bool:
+    """does executing this CFG node bind xs to a collection that is non-empty by construction?"""
+    st = node.stmt
+    if node.kind != 'stmt' or st is None:
+        return False
+    if isinstance(st, ast.Assign) and len(st.targets) == 1 and norm(st.targets[0]) == xs:
+        return _nonempty_display(st.value)
+    if isinstance(st, ast.AnnAssign) and st.value is not None and norm(st.target) == xs:
+        return _nonempty_display(st.value)
+    return False
+
+
 def _nonempty_on_every_path(fn, site, zc, xs):
     """a reason why xs is known to be non-empty whenever the unpack runs, or None"""
+    if _nonempty_display(zc.args[0].value):
+        return 'the unpacked collection is a display with at least one element'
     for t, pol, _ in guards_of(zc):
         if any(_emptiness_fact(a, p, xs) > 0 for a, p in conjuncts(t, pol)):
             return f'evaluated only under `{norm(t)}`' if pol else f'evaluated only when `{norm(t)}` is false'
@@ -798,7 +889,10 @@ def _nonempty_on_every_path(fn, site, zc, xs):
         if a in target and not known:
             return None
         n = nodes[a]
-        if known and _rebinds(n, xs):
+        if _establishes(n, xs):
+            known = True
+            why = why or n.text()
+        elif known and _rebinds(n, xs):
             known = False
         for b, lab in g.succ[a]:
             k = known
@@ -809,7 +903,7 @@ def _nonempty_on_every_path(fn, site, zc, xs):
             if (b, k) not in seen:
                 seen.add((b, k))
                 work.append((b, k))
-    return f'`{why}` sends the empty case elsewhere on every path to the unpack' if why else None
+    return f'`{why}` makes the collection non-empty (or sends the empty case elsewhere) on every path to the unpack' if why else None
 
 
 def rule_unpack(ctx):
@@ -821,8 +915,9 @@ def rule_unpack(ctx):
     for f in tree.body:
         sites = _zip_unpack_sites(f)
         got[f.name] = [(_nonempty_on_every_path(f, s, zc, xs) is not None) for s, zc, xs in sites]
-    ctx.control('C14-R2', got == {'bare': [False], 'early': [True], 'rebound': [False]},
-                'embedded zip(*xs) unpack examples: unguarded, guarded by an early return, guard invalidated by a re-binding')
+    ctx.control('C14-R2', got == {'bare': [False], 'early': [True], 'rebound': [False], 'display': [True], 'emptied': [False]},
+                'embedded zip(*xs) unpack examples: unguarded, guarded by an early return, guard invalidated by a re-binding, '
+                'bound to a non-empty display, display emptied before the unpack')
     fns = prog.all_functions() if ctx.tier == 'thorough' else \
         [f for f in prog.all_functions() if f.file.endswith((Q, F))]
     n = 0
@@ -1457,7 +1552,7 @@ def rule_placeholders(ctx):
     qm = prog.module(Q)
     pending = []
     for qn in ('QueryBase._common_conditions', 'Query.to_sql'):
-        fq = qm.func(qn)
+        fq = _view(prog, qm.func(qn))       # expanded and constant-folded: the text is what the database sees
         blocks = {}
         for x in walk_no_nested(fq.node):
             if isinstance(x, ast.Expr) and isinstance(x.value, ast.Call):
@@ -1504,7 +1599,9 @@ def rule_placeholders(ctx):
                     'parameter list are built in parallel, so a condition whose text is appended elsewhere binds the values of '
                     'its neighbours (e.g. the sample fraction to the day modulus)'), line=blk[0].lineno)
     for fq, what in pending:
-        ctx.undecided('C14-R3', fq, what, 'cannot count symbolically')
+        # not countable symbolically (text or parameters reach the lists through something the counter does not follow):
+        # the evaluated statements of R6 ("each condition with its own parameters") decide these blocks
+        ctx.note(f'C14-R3 {fq.qualname}: block at `{what}` not counted symbolically; decided by the evaluated statements (C14-R6)')
 
 
 def _numeric_optionals(cls):
@@ -1540,145 +1637,785 @@ def _module_values(fi):
 def _body_text(fi) -> str:
     """normalised text of the function's statements, module-level constant values written out"""
     env = _module_values(fi)
-    return ' '.join(norm(_clone(s_, env) if env else s_) for s_ in fi.node.body)
+    return ' '.join(norm(_Fold().visit(_clone(s_, env))) for s_ in fi.node.body)
 
 
 def _sql_text(fi, name='sql'):
     d = [st for t, st, how in stores_to(fi.node) if isinstance(t, ast.Name) and t.id == name and how in ('assign',)]
     if not d:
         return None, None
-    v = d[0].value
-    parts = []
-    for x in ast.walk(v):
-        if isinstance(x, ast.Constant) and isinstance(x.value, str):
-            parts.append((x.lineno, x.col_offset, x.value))
-    parts.sort()
-    return ''.join(p[2] for p in parts), d[0]
+    v = _Fold().visit(_clone(d[0].value, _module_values(fi)))
+
+    def text(x):
+        """the literal part of the statement text, in order (computed fields contribute nothing)"""
+        if _is_str(x):
+            return x.value
+        if isinstance(x, ast.JoinedStr):
+            return ''.join(text(y) for y in x.values)
+        if isinstance(x, ast.BinOp) and isinstance(x.op, ast.Add):
+            return text(x.left) + text(x.right)
+        return ''
+    return text(v), d[0]
+
+
+# ---------------------------------------------------------------- R4..R6 by evaluation ---
+_SPATIAL_KINDS = ('airport', 'country', 'continent', 'bounding_box')
+_POSITIONS = ('', 'origin_', 'destination_')
+
+
+def _c14_interp(prog):
+    """The checker's interpreter of extracted functions (sa/rules/c13.py: explicit values, nothing of the repository
+    is imported or run) with what the query code needs on top: reflection on a record's own fields (getattr / setattr /
+    hasattr), map, in-place `+=` on lists and on attributes, typing.cast, and a model of the three library values the
+    date bounds are made of - datetime.UTC, pd.Timestamp(<date>, tzinfo=/tz=) and datetime's timestamp() /
+    astimezone().  A naive datetime has no zone of its own: where the library would read the *process's* local zone the
+    model uses UTC+05:45, so anything that depends on it shows up as a wrong instant instead of passing by accident."""
+    import datetime as _dt
+    from .c13 import _Interp, _Rec, _Fn, _ClassRef, _Undecidable, _Raised, _BINOPS
+
+    LOCAL = _dt.timezone(_dt.timedelta(hours=5, minutes=45))
+
+    class QueryInterp(_Interp):
+        def lookup(self, name, fi, scopes):
+            for s_ in reversed(scopes):
+                if name in s_:
+                    return s_[name]
+            tgt = fi.module.imports.get(name)
+            if tgt == 'datetime.UTC':
+                return _dt.timezone.utc
+            if tgt == 'datetime.timezone':
+                return _dt.timezone
+            return super().lookup(name, fi, scopes)
+
+        def eval(self, e, fi, sc):
+            if isinstance(e, ast.Attribute):
+                if isinstance(e.value, ast.Name) and e.value.id in ('time', 'timezone', 'datetime', 'date') and e.attr in ('min', 'max', 'utc'):
+                    v = self.eval(e.value, fi, sc)
+                    if isinstance(v, type) and hasattr(v, e.attr):
+                        return getattr(v, e.attr)
+            return super().eval(e, fi, sc)
+
+        def call_fn(self, fn, args, kwargs):
+            a = fn.node.args
+            if not (a.vararg or a.kwarg):
+                return super().call_fn(fn, args, kwargs)
+            from .c13 import _Return
+            names = [x.arg for x in a.posonlyargs + a.args]
+            kwonly = [x.arg for x in a.kwonlyargs]
+            loc = dict(zip(names, args))
+            rest = tuple(args[len(names):])
+            if rest and not a.vararg:
+                raise _Raised(TypeError('too many positional arguments'))
+            more = {}
+            for k, v in kwargs.items():
+                if k in loc:
+                    raise _Raised(TypeError(f'multiple values for {k}'))
+                if k in names or k in kwonly:
+                    loc[k] = v
+                elif a.kwarg:
+                    more[k] = v
+                else:
+                    raise _Raised(TypeError(f'unexpected argument {k}'))
+            pos = a.posonlyargs + a.args
+            for arg, d in list(zip(pos[len(pos) - len(a.defaults):], a.defaults)) + \
+                    [(x, d) for x, d in zip(a.kwonlyargs, a.kw_defaults) if d is not None]:
+                if arg.arg not in loc:
+                    loc[arg.arg] = self.eval(d, fn.fi, fn.scopes + [{}])
+            for x in pos + a.kwonlyargs:
+                if x.arg not in loc:
+                    raise _Raised(TypeError(f'missing argument {x.arg}'))
+            if a.vararg:
+                loc[a.vararg.arg] = rest
+            if a.kwarg:
+                loc[a.kwarg.arg] = more
+            try:
+                self.exec_block(fn.node.body, fn.fi, fn.scopes + [loc])
+            except _Return as r:
+                return r.value
+            return None
+
+        def _timestamp(self, e, args, kwargs):
+            if len(args) == 1 and isinstance(args[0], str) and args[0].startswith('row[') and kwargs.get('unit') == 's' \
+                    and (kwargs.get('tz') in ('UTC', 'utc', _dt.timezone.utc)) and set(kwargs) == {'unit', 'tz'}:
+                return f'utc({args[0]})'
+            tz = kwargs.pop('tzinfo', kwargs.pop('tz', None))
+            if kwargs or len(args) != 1:
+                raise _Undecidable('pd.Timestamp with these arguments')
+            v = args[0]
+            if isinstance(v, str):
+                v = self.guard(_dt.datetime.fromisoformat, [v.replace('Z', '+00:00')])
+            if isinstance(v, _dt.date) and not isinstance(v, _dt.datetime):
+                v = _dt.datetime(v.year, v.month, v.day)
+            if not isinstance(v, _dt.datetime):
+                raise _Undecidable('pd.Timestamp of a value that is not a date')
+            if isinstance(tz, str):
+                if tz.upper() != 'UTC':
+                    raise _Undecidable(f'time zone {tz!r}')
+                tz = _dt.timezone.utc
+            if tz is not None:
+                if not isinstance(tz, _dt.tzinfo):
+                    raise _Undecidable('tzinfo value')
+                if v.tzinfo is not None:
+                    raise _Raised(ValueError('Cannot pass a datetime or Timestamp with tzinfo with the tz parameter'))
+                v = v.replace(tzinfo=tz)
+            return v
+
+        def eval_call(self, e, fi, sc):
+            nm = call_name(e)
+            plain = not e.keywords and not any(isinstance(a, ast.Starred) for a in e.args)
+            if isinstance(e.func, ast.Name) and e.func.id == 'cast' and len(e.args) == 2 and plain \
+                    and fi.module.imports.get('cast') == 'typing.cast':
+                return self.eval(e.args[1], fi, sc)
+            if nm.split('.')[-1] == 'utcfromtimestamp' and len(e.args) == 1 and plain:
+                v = self.eval(e.args[0], fi, sc)
+                if isinstance(v, str):
+                    return f'utc({v})'           # a column token: epoch seconds read as a UTC instant
+                if isinstance(v, (int, float)):
+                    return _dt.datetime.fromtimestamp(v, _dt.timezone.utc)
+                raise _Undecidable('utcfromtimestamp of this value')
+            if nm.split('.')[-1] == 'Timestamp' and (nm == 'Timestamp' or nm.split('.')[0] in ('pd', 'pandas')) \
+                    and not any(isinstance(a, ast.Starred) for a in e.args) and all(k.arg for k in e.keywords):
+                return self._timestamp(e, [self.eval(a, fi, sc) for a in e.args], {k.arg: self.eval(k.value, fi, sc) for k in e.keywords})
+            if isinstance(e.func, ast.Attribute) and e.func.attr in ('timestamp', 'astimezone', 'total_seconds', 'tz_localize', 'tz_convert'):
+                recv = self.eval(e.func.value, fi, sc)
+                args = [self.eval(a, fi, sc) for a in e.args]
+                if isinstance(recv, _dt.datetime) and not e.keywords:
+                    if e.func.attr == 'timestamp' and not args:
+                        return (recv if recv.tzinfo is not None else recv.replace(tzinfo=LOCAL)).timestamp()
+                    if e.func.attr == 'astimezone' and len(args) <= 1:
+                        src = recv if recv.tzinfo is not None else recv.replace(tzinfo=LOCAL)
+                        return self.guard(src.astimezone, [args[0] if args else LOCAL])
+                    if e.func.attr == 'tz_localize' and len(args) == 1 and recv.tzinfo is None:
+                        tz = _dt.timezone.utc if isinstance(args[0], str) and args[0].upper() == 'UTC' else args[0]
+                        if isinstance(tz, _dt.tzinfo):
+                            return recv.replace(tzinfo=tz)
+                if isinstance(recv, _dt.timedelta) and e.func.attr == 'total_seconds' and not args and not e.keywords:
+                    return recv.total_seconds()
+                raise _Undecidable(f'{e.func.attr} of {type(recv).__name__}')
+            if isinstance(e.func, ast.Attribute) and e.func.attr in ('clear', 'pop', 'remove', 'reverse', 'sort') and plain:
+                recv = self.eval(e.func.value, fi, sc)
+                if isinstance(recv, (list, dict)) and (e.func.attr != 'sort' or isinstance(recv, list)):
+                    return self.guard(getattr(recv, e.func.attr), [self.eval(a, fi, sc) for a in e.args])
+            if isinstance(e.func, ast.Name) and e.func.id in ('getattr', 'setattr', 'hasattr', 'map') \
+                    and not any(e.func.id in s_ for s_ in sc) and plain:
+                if e.func.id == 'map' and len(e.args) >= 2:
+                    cols = [self.iterate(self.eval(a, fi, sc)) for a in e.args[1:]]
+                    out = []
+                    for r in zip(*cols):
+                        names = [f'\x00m{i}' for i in range(len(r))]
+                        call = ast.copy_location(ast.Call(func=e.args[0], args=[ast.Name(id=n_, ctx=ast.Load()) for n_ in names], keywords=[]), e)
+                        out.append(self.eval_call(call, fi, sc + [dict(zip(names, r))]))
+                    return out
+                args = [self.eval(a, fi, sc) for a in e.args]
+                if e.func.id in ('getattr', 'hasattr') and len(args) in (2, 3) and isinstance(args[0], _Rec) and isinstance(args[1], str):
+                    if e.func.id == 'hasattr':
+                        return args[1] in args[0].fields
+                    if args[1] in args[0].fields:
+                        return args[0].fields[args[1]]
+                    if len(args) == 3:
+                        return args[2]
+                    raise _Raised(AttributeError(args[1]))
+                if e.func.id == 'setattr' and len(args) == 3 and isinstance(args[0], _Rec) and isinstance(args[1], str):
+                    args[0].fields[args[1]] = args[2]
+                    return None
+                raise _Undecidable(f'{e.func.id} on {args[:1]!r}')
+            return super().eval_call(e, fi, sc)
+
+        def assign(self, t, v, fi, sc):
+            if isinstance(t, ast.Attribute):
+                obj = self.eval(t.value, fi, sc)
+                if isinstance(obj, _Rec):
+                    obj.fields[t.attr] = v
+                    return
+            return super().assign(t, v, fi, sc)
+
+        def exec(self, st, fi, sc):
+            if isinstance(st, ast.AugAssign) and isinstance(st.target, (ast.Name, ast.Attribute)):
+                load = _clone(st.target)
+                load.ctx = ast.Load()
+                cur = self.eval(load, fi, sc)
+                f = _BINOPS.get(type(st.op))
+                if f is None:
+                    raise _Undecidable('augmented assignment')
+                val = self.eval(st.value, fi, sc)
+                if isinstance(cur, list):
+                    if not isinstance(st.op, ast.Add):
+                        raise _Undecidable('in-place update of a list')
+                    cur.extend(self.iterate(val))      # the same list object: aliases see it
+                    return None
+                if isinstance(cur, (set, dict)):
+                    raise _Undecidable('in-place update of a container')
+                return self.assign(st.target, self.guard(f, [cur, val]), fi, sc)
+            return super().exec(st, fi, sc)
+
+    return QueryInterp(prog), _Rec, _Undecidable, _Raised
+
+
+def _norm_sql(s: str) -> str:
+    """SQL text as the database reads it, for comparison: a sequence of tokens; case and layout do not matter"""
+    return ' '.join(re.findall(r"[A-Za-z_][\w.]*|\d+(?:\.\d+)?|'[^']*'|[^\s\w]", s.lower()))
+
+
+def _depth0_split(s: str, sep: str) -> list[str]:
+    out, depth, cur, i = [], 0, '', 0
+    while i < len(s):
+        ch = s[i]
+        if ch == '(':
+            depth += 1
+        elif ch == ')':
+            depth -= 1
+        if depth == 0 and s.startswith(sep, i):
+            out.append(cur)
+            cur = ''
+            i += len(sep)
+            continue
+        cur += ch
+        i += 1
+    out.append(cur)
+    return out
+
+
+_CLAUSES = ('select', 'from', 'where', 'group by', 'order by', 'limit', 'offset')
+
+
+def _clauses(sql: str) -> dict[str, str]:
+    """{clause keyword: text} of one (normalised) SELECT statement, split at parenthesis depth 0"""
+    out, depth, i, cur, key = {}, 0, 0, '', None
+    s = sql + ' '
+    while i < len(s):
+        ch = s[i]
+        if ch == '(':
+            depth += 1
+        elif ch == ')':
+            depth -= 1
+        if depth == 0 and (i == 0 or s[i - 1] == ' '):
+            kw = next((k for k in _CLAUSES if s.startswith(k + ' ', i)), None)
+            if kw is not None:
+                if key is not None:
+                    out[key] = cur.strip()
+                elif cur.strip():
+                    out['<head>'] = cur.strip()
+                key, cur = kw, ''
+                i += len(kw)
+                continue
+        cur += ch
+        i += 1
+    if key is not None:
+        out[key] = cur.strip()
+    return out
+
+
+def _bound_conjuncts(where: str, params: list):
+    """multiset of (conjunct text, its parameters) of a normalised WHERE text: conjuncts split at depth 0, parameters
+    handed out in order of the placeholders; None when their numbers differ"""
+    conj = [c.strip() for c in _depth0_split(where, ' and ')] if where.strip() else []
+    need = sum(c.count('?') for c in conj)
+    if need != len(params):
+        return None
+    out, i = [], 0
+    for c in conj:
+        k = c.count('?')
+        out.append((c, tuple(params[i:i + k])))
+        i += k
+    return Counter(out)
+
+
+def _marks(n: int) -> str:
+    return ', '.join('?' * n)
+
+
+def _documented_filter(f: dict, t: str) -> Counter:
+    """the conditions a Filter with these (normalised) attributes stands for, per its documentation and the schema:
+    multiset of (normalised SQL conjunct, parameters)"""
+    out = []
+    for col, field, op in (('distance', 'min_distance', '>='), ('distance', 'max_distance', '<='),
+                           ('seat_capacity', 'min_seat_capacity', '>='), ('seat_capacity', 'max_seat_capacity', '<=')):
+        if f.get(field) is not None:
+            out.append((f'{t}{col} {op} ?', (f[field],)))
+    for field in ('service_type', 'aircraft_type'):
+        v = f.get(field)
+        if v:
+            out.append((f'{t}{field} in ({_marks(len(v))})', tuple(v)))
+    subs = {'airport': lambda n: f'(select id from airports where iata_code in ({_marks(n)}))',
+            'country': lambda n: f'(select id from airports where country in ({_marks(n)}))',
+            'continent': lambda n: f'(select id from airports where country in (select code from countries where continent in ({_marks(n)})))'}
+    box = ('(select id from airport_location_idx where min_latitude >= ? and max_latitude <= ? '
+           'and min_longitude >= ? and max_longitude <= ?)')
+    for kind in _SPATIAL_KINDS:
+        for pos in _POSITIONS:
+            v = f.get(pos + kind)
+            if v is None:
+                continue
+            if kind == 'bounding_box':
+                sub, par = box, tuple(v)
+            else:
+                sub, par = subs[kind](len(v)), tuple(v)
+            if pos == '':
+                out.append((f'({t}origin in {sub} or {t}destination in {sub})', par + par))
+            else:
+                out.append((f'{t}{pos[:-1]} in {sub}', par))
+    return Counter((_norm_sql(c), p) for c, p in out)
+
+
+def _filter_table():
+    box = (10.0, 20.5, -30.0, 40.25)
+    box2 = (-5.0, 5.0, 170.0, 180.0)
+    rows = [{}]
+    for fld, vals in (('min_distance', (0, 500.0)), ('max_distance', (0.0, 1200.5)), ('min_seat_capacity', (0, 50)),
+                      ('max_seat_capacity', (0, 300))):
+        rows += [{fld: v} for v in vals]
+    rows += [{'service_type': 'J'}, {'service_type': ['J', 'F']}, {'service_type': []}, {'aircraft_type': ['738']},
+             {'aircraft_type': '320', 'service_type': ['J']}]
+    for kind, one, many in (('airport', 'BOS', ['BOS', 'JFK', 'LHR']), ('country', 'US', ['US', 'CA']), ('continent', 'EU', ['EU', 'SA'])):
+        for pos in _POSITIONS:
+            rows += [{pos + kind: one}, {pos + kind: many}]
+        rows.append({'origin_' + kind: many, 'destination_' + kind: one})
+    for pos in _POSITIONS:
+        rows.append({pos + 'bounding_box': box})
+    rows += [{'origin_bounding_box': box, 'destination_bounding_box': box2},
+             {'origin_airport': ['BOS'], 'destination_country': ['FR', 'DE']},
+             {'origin_continent': 'NA', 'destination_bounding_box': box2},
+             {'min_distance': 100, 'max_distance': 5000, 'min_seat_capacity': 1, 'max_seat_capacity': 0, 'service_type': ['J'],
+              'aircraft_type': ['738', '320'], 'origin_country': ['US'], 'destination_continent': ['EU', 'AS']},
+             {'country': ['MY'], 'max_seat_capacity': 400}]
+    return rows
+
+
+def _make_filter(prog, _Rec, spec):
+    fm = prog.module(F)
+    cls, bb = fm.cls('Filter'), fm.cls('BoundingBox')
+    vals = {k: None for k in cls.all_fields()}
+    for k, v in spec.items():
+        if k not in vals:
+            raise KeyError(k)
+        if k.endswith('bounding_box'):
+            v = _Rec(bb.name, dict(zip(('min_latitude', 'max_latitude', 'min_longitude', 'max_longitude'), v)), bb)
+        elif isinstance(v, list):
+            v = list(v)
+        vals[k] = v
+    return _Rec(cls.name, vals, cls)
+
+
+def _listed(spec):
+    """the filter's attributes as the documentation reads them: a single string is a one-element list"""
+    out = {}
+    for k, v in spec.items():
+        out[k] = [v] if isinstance(v, str) else v
+    return out
+
+
+def rule_filter_evaluated(ctx):
+    """R3/R7 by evaluation: Filter.to_sql run on a table of filters (every attribute alone with ordinary and zero
+    values, single strings and lists, every region type in every position, legal mixes) must return exactly the
+    documented conditions, each with its own parameters in placeholder order, ('', []) for a filter without
+    conditions, and the same answer when asked twice."""
+    prog = ctx.prog
+    fm = prog.module(F)
+    ts = fm.func('Filter.to_sql')
+    interp, _Rec, _Undecidable, _Raised = _c14_interp(prog)
+    n = 0
+    bad = None
+    try:
+        for spec in _filter_table():
+            for table in ('f', None):
+                rec = _make_filter(prog, _Rec, spec)
+                n += 1
+                try:
+                    interp.steps = 0
+                    first = interp.call_method(ts.cls, 'to_sql', rec, [], {'table': table} if table else {})
+                    interp.steps = 0
+                    again = interp.call_method(ts.cls, 'to_sql', rec, [], {'table': table} if table else {})
+                except _Raised as ex:
+                    if not isinstance(ex.exc, (ValueError, AssertionError)):
+                        raise
+                    if bad is None:
+                        bad = (spec, table, f'this legal filter is refused: {type(ex.exc).__name__}({str(ex.exc)[:80]})')
+                    continue
+                if not (isinstance(first, tuple) and len(first) == 2 and isinstance(first[0], str) and isinstance(first[1], list)):
+                    raise _Undecidable(f'to_sql returned {first!r}')
+                want = _documented_filter(_listed(spec), 'f.' if table else '')
+                got = _bound_conjuncts(_norm_sql(first[0]), first[1])
+                why = None
+                if got is None:
+                    why = f'{first[0].count("?")} placeholders but {len(first[1])} parameters'
+                elif got != want:
+                    miss, extra = want - got, got - want
+                    why = ('; '.join(([f'missing: {c} <- {list(p)}' for c, p in miss][:2]) + ([f'unexpected: {c} <- {list(p)}' for c, p in extra][:2])))[:400]
+                elif not want and (first[0] != '' or first[1] != []):
+                    why = f'a filter without conditions gives {first!r}, not the empty condition'
+                elif (again[0], list(again[1])) != (first[0], list(first[1])):
+                    why = 'asking twice gives different answers'
+                if why and bad is None:
+                    bad = (spec, table, why)
+    except KeyError as ex:
+        ctx.undecided('C14-R3', ts, 'Filter.to_sql on the table of filters', f'Filter has no field {ex}')
+    except (_Undecidable, _Raised) as ex:
+        ctx.undecided('C14-R3', ts, 'Filter.to_sql on the table of filters', f'cannot run it: {ex}')
+    ctx.floor('C14-R3/evaluated', n, 80, 'filters evaluated')
+    ok = bad is None
+    ctx.ob('C14-R3', ts, 'Filter.to_sql returns the documented conditions with their own parameters', ok,
+           f'on all {n} filters of the table (zero-valued bounds, single strings, every region type and position, legal mixes)' if ok else
+           f'Filter({", ".join(f"{k}={v!r}" for k, v in bad[0].items())}).to_sql({"table=" + repr(bad[1]) if bad[1] else ""}): {bad[2]}')
+
+
+_SELECT_LIST = ('s.departure_timestamp, s.arrival_timestamp, s.id as id, f.id as flight_id, f.carrier, f.flight_number, '
+                'ao.iata_code as origin, ao.country as origin_country, ad.iata_code as destination, ad.country as destination_country, '
+                'f.service_type, f.aircraft_type, f.engine_type, f.distance, f.seat_capacity')
+_JOINS = 'schedules s join flights f on f.id = s.flight_id join airports ao on f.origin = ao.id join airports ad on f.destination = ad.id'
+_SAMPLE = '(random() + 9223372036854775808) / 18446744073709551615.0 < ?'
+
+
+def _epoch(d, days=0) -> int:
+    import datetime as _dt
+    return int((_dt.datetime(d.year, d.month, d.day, tzinfo=_dt.timezone.utc) + _dt.timedelta(days=days)).timestamp())
+
+
+def _documented_common(cfg, filt_conj) -> Counter:
+    out = Counter(filt_conj)
+    if cfg.get('start_date') is not None:
+        out[(_norm_sql('s.departure_timestamp >= ?'), (_epoch(cfg['start_date']),))] += 1
+    if cfg.get('end_date') is not None:
+        out[(_norm_sql('s.departure_timestamp < ?'), (_epoch(cfg['end_date'], 1),))] += 1
+    return out
+
+
+def _same_on(a: str, b: str) -> bool:
+    """FROM clauses equal up to the order of the two sides of each `x = y` join condition"""
+    def canon(s):
+        return re.sub(r'on (\S+) = (\S+)', lambda m: 'on ' + ' = '.join(sorted(m.groups())), s)
+    return canon(a) == canon(b)
+
+
+def rule_queries_evaluated(ctx):
+    """R4/R6 (and R1's visible side) by evaluation: the three query classes' to_sql run on a grid of settings.  What
+    the database is asked must be the documented statement: the select list, the joins, one WHERE conjunct per
+    condition with its own parameters (start date inclusive from 00:00 UTC, end date strictly before 00:00 UTC of the
+    following day, the sampling fraction, every n-th day counted from the start day or from the first day in the
+    data, the filter's conditions), ORDER BY departure time, LIMIT / OFFSET, the documented refusals - and the same
+    statement when it is built twice from the same query object."""
+    import datetime as _dt
+    import itertools
+    prog = ctx.prog
+    qm = prog.module(Q)
+    interp, _Rec, _Undecidable, _Raised = _c14_interp(prog)
+    filters = [None, {}, {'country': ['US', 'CA'], 'max_seat_capacity': 0}]
+    d1, d2 = _dt.date(2024, 3, 9), _dt.date(2024, 3, 31)     # a DST change of many zones lies between them
+    found = {}                                              # (rule, construct) -> (ok, why, fi)
+    stale = []                                              # parameter lists handed out, then changed by a later to_sql()
+    counts = Counter()
+    cols_seen = None
+
+    def verdict(rule, fi, construct, ok, why):
+        key = (rule, construct)
+        if key not in found or (found[key][0] and not ok):
+            found[key] = (ok, why, fi)
+
+    def make(clsname, cfg):
+        ci = qm.cls(clsname)
+        vals = {}
+        for k, ann in ci.all_fields().items():
+            if 'ClassVar' in norm(ann):
+                continue
+            vals[k] = None
+        for c_ in reversed(ci.mro()):
+            for k, v in c_.class_assignments().items():
+                if k in vals and v is not None and const_value(v) is not None:
+                    vals[k] = const_value(v)
+        for k, v in cfg.items():
+            if k not in vals:
+                raise KeyError(k)
+            vals[k] = _make_filter(prog, _Rec, v) if k == 'filter' and v is not None else v
+        rec = _Rec(ci.name, vals, ci)
+        if any('__post_init__' in c_.methods for c_ in ci.mro()):
+            interp.steps = 0
+            interp.call_method(ci, '__post_init__', rec, [], {})
+        return ci, rec
+
+    def run(clsname, cfg):
+        ci, rec = make(clsname, cfg)
+        out = []
+        handed = None
+        for _ in range(2):
+            interp.steps = 0
+            try:
+                r = interp.call_method(ci, 'to_sql', rec, [], {})
+                if not (isinstance(r, tuple) and len(r) == 2 and isinstance(r[0], str) and isinstance(r[1], list)):
+                    raise _Undecidable(f'{clsname}.to_sql returned {r!r}')
+                out.append((r[0], list(r[1])))
+                if handed is None:
+                    handed = (r[1], list(r[1]))
+            except _Raised as ex:
+                if not isinstance(ex.exc, ValueError):
+                    raise
+                out.append('ValueError')
+        # the list handed out belongs to the caller (the statement may run later: results are lazy): change a setting,
+        # build again, and the first list must still be what it was
+        moved = next((k for k in ('start_date', 'end_date') if rec.fields.get(k) is not None), None)
+        if handed is not None and moved is not None:
+            rec.fields[moved] = rec.fields[moved] + _dt.timedelta(days=1)
+            interp.steps = 0
+            try:
+                interp.call_method(ci, 'to_sql', rec, [], {})
+            except _Raised:
+                pass
+            if handed[0] != handed[1] and not stale:
+                stale.append((clsname, cfg))
+        return out
+
+    def filter_conj(spec):
+        if spec is None:
+            return Counter()
+        return _documented_filter(_listed(spec), 'f.')
+
+    def show(cfg):
+        return ', '.join(f'{k}={v if not isinstance(v, _dt.date) else v.isoformat()}' for k, v in cfg.items() if v is not None) or 'no settings'
+
+    qs, cq, ff = qm.func('Query.to_sql'), qm.func('CountQuery.to_sql'), qm.func('FrequentFlightQuery.to_sql')
+    try:
+        # ---- Query
+        paging = ((None, None), (10, None), (7, 5))
+        grid = [(None, st_, en_, nth_, sm_) for st_, en_, nth_, sm_ in itertools.product((None, d1), (None, d2), (None, 1, 3), (None, 0.25))]
+        grid += [(f_, st_, en_, nth_, 0.25 if nth_ else None) for f_ in filters[1:] for st_, en_, nth_ in itertools.product((None, d1), (None, d2), (None, 3))]
+        edge = [(None, None, None, None, 1.0, (1, 0)), (None, d1, d1, 1, None, (1, None)), (None, d2, d1, 2, 1.0, (None, None))]
+        for i_, (filt, start, end, nth, sample, *pg) in enumerate(grid + edge):
+            limit, offset = pg[0] if pg else paging[i_ % 3]
+            cfg = {'filter': filt, 'start_date': start, 'end_date': end, 'every_nth': nth, 'sample': sample, 'limit': limit, 'offset': offset}
+            a, b = run('Query', cfg)
+            counts['Query'] += 1
+            verdict('C14-R1', qs, 'Query.to_sql built twice gives the same statement', a == b,
+                    'same SQL and parameters' if a == b else f'with {show(cfg)} the second to_sql() differs from the first: '
+                    f'{str(b)[:120]} vs {str(a)[:120]}')
+            if a == 'ValueError':
+                verdict('C14-R6', qs, 'legal settings are accepted', False, f'{show(cfg)} is refused with ValueError')
+                continue
+            sql, params = a
+            cl = _clauses(_norm_sql(sql))
+            want = _documented_common(cfg, filter_conj(filt))
+            if sample is not None:
+                want[(_norm_sql(_SAMPLE), (sample,))] += 1
+            if nth is not None and nth > 1:
+                if start is None:
+                    want[(_norm_sql('(s.day - (select min(day) from schedules)) % ? = 0'), (nth,))] += 1
+                else:
+                    want[(_norm_sql('(s.day - ?) % ? = 0'), ((start - _dt.date(1970, 1, 1)).days, nth))] += 1
+            got = _bound_conjuncts(cl.get('where', ''), params)
+            ok = got == want
+            why = 'each condition once, with its own parameters'
+            if got is None:
+                why = f'with {show(cfg)}: {sql.count("?")} placeholders but {len(params)} parameters'
+            elif not ok:
+                miss, extra = want - got, got - want
+                why = f'with {show(cfg)}: ' + '; '.join([f'missing `{c}` <- {list(p)}' for c, p in miss][:2] + [f'unexpected `{c}` <- {list(p)}' for c, p in extra][:2])
+            verdict('C14-R6', qs, 'WHERE: start/end dates inclusive (UTC midnights), sampling, every-nth-day, filter — each with its own parameters', ok, why[:600])
+            cols_seen = cl.get('select', '')
+            ok = cl.get('select') == _norm_sql(_SELECT_LIST)
+            verdict('C14-R4', qs, 'select list', ok, 'the fifteen documented columns, origin from ao, destination from ad' if ok else
+                    f'select list changed: {cl.get("select", "")[:200]}')
+            ok = _same_on(cl.get('from', ''), _norm_sql(_JOINS))
+            verdict('C14-R4', qs, 'joins: schedules -> flights -> origin and destination airports', ok, _JOINS if ok else
+                    f'joins changed (rows pair the wrong airports/flights): {cl.get("from", "")[:200]}')
+            ok = cl.get('order by') == _norm_sql('s.departure_timestamp') and '<head>' not in cl and 'group by' not in cl
+            verdict('C14-R4', qs, 'results ordered by departure time', ok, 'ORDER BY s.departure_timestamp for every setting' if ok else
+                    f'with {show(cfg)} the statement ends `{_norm_sql(sql)[-80:]}`: results are not (always) ordered by departure time')
+            order = [_CLAUSES.index(k) for k in cl if k in _CLAUSES]
+            ok = cl.get('limit') == (str(limit) if limit is not None else None) and cl.get('offset') == (str(offset) if offset is not None else None) \
+                and order == sorted(order)
+            verdict('C14-R6', qs, 'limit and offset appended after ordering', ok, 'LIMIT n [OFFSET m] after ORDER BY' if ok else
+                    f'with {show(cfg)} the statement ends `{_norm_sql(sql)[-60:]}`')
+        for cfg in ({'sample': 0.0}, {'sample': 1.5}, {'sample': -0.1}, {'every_nth': 0}, {'every_nth': -2}, {'limit': 0}, {'limit': 5, 'offset': -1}, {'offset': 3}):
+            a, _ = run('Query', cfg)
+            counts['Query'] += 1
+            verdict('C14-R6', qs, 'illegal settings are refused', a == 'ValueError', 'ValueError for sample outside (0, 1], every_nth < 1, '
+                    'limit < 1, offset < 0, offset without limit' if a == 'ValueError' else f'{show(cfg)} is accepted')
+        # ---- CountQuery
+        for filt, start, end in itertools.product(filters, (None, d1), (None, d2)):
+            cfg = {'filter': filt, 'start_date': start, 'end_date': end}
+            a, b = run('CountQuery', cfg)
+            counts['CountQuery'] += 1
+            verdict('C14-R1', cq, 'CountQuery.to_sql built twice gives the same statement', a == b, 'same SQL and parameters' if a == b else
+                    f'with {show(cfg)} the second to_sql() differs from the first')
+            if a == 'ValueError':
+                verdict('C14-R4', cq, 'count query counts instances with the same joins', False, f'{show(cfg)} is refused')
+                continue
+            cl = _clauses(_norm_sql(a[0]))
+            want = _documented_common(cfg, filter_conj(filt))
+            got = _bound_conjuncts(cl.get('where', ''), a[1])
+            frm = cl.get('from', '')
+            ok = got == want and cl.get('select') == _norm_sql('count(s.id)') and (_same_on(frm, _norm_sql(_JOINS)) or (not want and frm == _norm_sql('schedules s'))) \
+                and set(cl) <= {'select', 'from', 'where'}
+            verdict('C14-R4', cq, 'count query counts instances with the same joins', ok, 'COUNT(s.id) over the same joins and conditions' if ok else
+                    f'with {show(cfg)}: `{_norm_sql(a[0])[:220]}` <- {a[1]}')
+        # ---- FrequentFlightQuery
+        for filt, start, end, limit in itertools.product(filters, (None, d1), (None, d2), (None, 5)):
+            cfg = {'filter': filt, 'start_date': start, 'end_date': end}
+            if limit is not None:
+                cfg['limit'] = limit
+            a, b = run('FrequentFlightQuery', cfg)
+            counts['FrequentFlightQuery'] += 1
+            verdict('C14-R1', ff, 'FrequentFlightQuery.to_sql built twice gives the same statement', a == b, 'same SQL and parameters' if a == b else
+                    f'with {show(cfg)} the second to_sql() differs from the first')
+            if a == 'ValueError':
+                verdict('C14-R4', ff, 'frequent routes: count per direction-independent pair, descending', False, f'{show(cfg)} is refused')
+                continue
+            s_ = _norm_sql(a[0])
+            m_ = re.match(r'^with counts as \( (.*) \) select (.*)$', s_)
+            inner = _clauses(m_.group(1)) if m_ else {}
+            outer = _clauses('select ' + m_.group(2)) if m_ else {}
+            want = _documented_common(cfg, filter_conj(filt))
+            got = _bound_conjuncts(inner.get('where', ''), a[1])
+            lim = str(limit) if limit is not None else '20'
+            ok = bool(m_) and got == want and inner.get('select') == _norm_sql('count(s.id) as nflights, f.od_pair as od_pair') \
+                and _same_on(inner.get('from', ''), _norm_sql('schedules s join flights f on s.flight_id = f.id')) and inner.get('group by') == 'od_pair' \
+                and outer.get('select') == _norm_sql('substring(od_pair, 1, 3) as airport1, substring(od_pair, 4) as airport2, nflights') \
+                and outer.get('from') == 'counts' and outer.get('order by') == _norm_sql('nflights desc') and outer.get('limit') == lim \
+                and set(inner) <= {'select', 'from', 'where', 'group by'} and set(outer) <= {'select', 'from', 'order by', 'limit'}
+            verdict('C14-R4', ff, 'frequent routes: count per direction-independent pair, descending', ok,
+                    'instances counted per od_pair under the same conditions, ORDER BY nflights DESC, LIMIT n (default 20)' if ok else
+                    f'with {show(cfg)}: `{s_[:260]}` <- {a[1]}')
+        a, _ = run('FrequentFlightQuery', {'limit': 0})
+        verdict('C14-R6', ff, 'frequent routes: limit < 1 refused', a == 'ValueError', 'ValueError' if a == 'ValueError' else 'limit=0 is accepted')
+    except KeyError as ex:
+        ctx.undecided('C14-R4', qs, 'query classes on the grid of settings', f'no field {ex}')
+    except (_Undecidable, _Raised) as ex:
+        ctx.undecided('C14-R4', qs, 'query classes on the grid of settings', f'cannot run to_sql: {ex}')
+    ctx.floor('C14-R4/evaluated', counts['Query'], 45, 'Query settings evaluated')
+    ctx.floor('C14-R4/evaluated-count', counts['CountQuery'] + counts['FrequentFlightQuery'], 30, 'CountQuery / FrequentFlightQuery settings evaluated')
+    for (rule, construct), (ok, why, fi) in found.items():
+        ctx.ob(rule, fi, construct, ok, why)
+    ctx.ob('C14-R1', qm.func('QueryBase._common_conditions'), 'the parameter list handed out by to_sql() is not changed by a later to_sql()', not stale,
+           'every call builds its own list' if not stale else
+           f'{stale[0][0]}({show(stale[0][1])}): the list returned by the first to_sql() is emptied / refilled in place by the second - a result '
+           'generator that has not started yet (queries run lazily) then executes the first statement with the second parameters')
+    return cols_seen
 
 
 def rule_columns(ctx):
     prog = ctx.prog
     qm = prog.module(Q)
     qs = qm.func('Query.to_sql')
-    sql, st = _sql_text(qs)
-    if sql is None:
-        ctx.undecided('C14-R4', qs, 'sql', 'SQL literal not found')
-    msel = re.search(r'SELECT (.*?) FROM', sql, re.S)
+    sel = rule_queries_evaluated(ctx)
+    if not sel:
+        ctx.undecided('C14-R4', qs, 'sql', 'no SELECT statement obtained from Query.to_sql')
     cols = []
-    for c in msel.group(1).split(','):
+    for c in sel.split(' , '):
         c = c.strip()
-        ma = re.search(r'\bAS (\w+)$', c, re.I)
+        ma = re.search(r'\bas (\w+)$', c, re.I)
         cols.append(ma.group(1) if ma else c.split('.')[-1])
+    # from_row, by evaluation: build a result from a row whose i-th element is the token `row[i]`; every field must come
+    # from the column of its own name, the two instants through a from-epoch-seconds-as-UTC conversion
+    interp, _Rec, _Undecidable, _Raised = _c14_interp(prog)
+    from .c13 import _ClassRef
     fr = qm.func('QueryResult.from_row')
-    call = next(c for c in calls_in(fr.node) if call_name(c) == 'cls')
     alias = {'departure': 'departure_timestamp', 'arrival': 'arrival_timestamp'}
+
+    def built(fi_, width):
+        try:
+            interp.steps = 0
+            r = interp.call_method(fi_.cls, 'from_row', _ClassRef(fi_.cls), [tuple(f'row[{i}]' for i in range(width))], {})
+        except (_Undecidable, _Raised) as ex:
+            ctx.undecided('C14-R4', fi_, 'from_row', f'cannot run it on a row of column tokens: {ex}')
+        if not isinstance(r, _Rec):
+            ctx.undecided('C14-R4', fi_, 'from_row', f'returned {r!r}')
+        return r.fields
+    got = built(fr, max(len(cols), 15))
     n = 0
-    for k in call.keywords:
-        idx = None
-        for x in ast.walk(k.value):
-            if isinstance(x, ast.Subscript) and norm(x.value) == 'row' and isinstance(x.slice, ast.Constant):
-                idx = x.slice.value
-        if idx is None:
-            ctx.undecided('C14-R4', fr, k.arg, 'row index not found')
+    for k, v in got.items():
         n += 1
-        want = alias.get(k.arg, k.arg)
-        ok = idx < len(cols) and cols[idx] == want
-        ctx.ob('C14-R4', fr, f'{k.arg} = row[{idx}] ({cols[idx] if idx < len(cols) else "?"})', ok,
-               'field reads the column of the same name' if ok else
-               f'field `{k.arg}` reads column {idx} which the SELECT list defines as `{cols[idx] if idx < len(cols) else "out of range"}`',
-               line=k.value.lineno)
+        want = alias.get(k, k)
+        mi = re.fullmatch(r'(utc\()?row\[(\d+)\]\)?', v) if isinstance(v, str) else None
+        idx = int(mi.group(2)) if mi else None
+        ok = idx is not None and idx < len(cols) and cols[idx] == want and bool(mi.group(1)) == (k in alias)
+        ctx.ob('C14-R4', fr, f'{k} = {v} ({cols[idx] if idx is not None and idx < len(cols) else "?"})', ok,
+               'field reads the column of the same name' + (' (epoch seconds read as UTC)' if k in alias else '') if ok else
+               (f'field `{k}` is built from `{v}`: not the plain value of one column' if idx is None else
+                f'field `{k}` reads column {idx} which the SELECT list defines as `{cols[idx] if idx < len(cols) else "out of range"}`'
+                + ('' if bool(mi.group(1)) == (k in alias) else '; epoch seconds must be read as a UTC instant exactly for departure/arrival')))
     ctx.floor('C14-R4', n, 15, 'QueryResult fields')
     ok = len(cols) == n
     ctx.ob('C14-R4', qs, f'{len(cols)} selected columns for {n} result fields', ok, 'same number' if ok else 'arity differs',
            nontrivial=False)
-    ok = sql.rstrip().endswith('ORDER BY s.departure_timestamp') and not guards_of(st)
-    ctx.ob('C14-R4', qs, 'results ordered by departure time', ok, 'ORDER BY s.departure_timestamp on every path' if ok else
-           'results are not (always) ordered by departure time', line=st.lineno)
-    joins = ['JOIN flights f ON f.id = s.flight_id', 'JOIN airports ao ON f.origin = ao.id',
-             'JOIN airports ad ON f.destination = ad.id']
-    for j in joins:
-        ctx.ob('C14-R4', qs, j, j in sql, 'join present' if j in sql else 'join changed: rows pair the wrong airports/flights',
-               line=st.lineno, nontrivial=False)
-    ok = 'ao.iata_code AS origin' in sql and 'ad.iata_code AS destination' in sql and \
-        'ao.country AS origin_country' in sql and 'ad.country AS destination_country' in sql
-    ctx.ob('C14-R4', qs, 'origin columns from ao, destination columns from ad', ok, 'aliases agree with joins' if ok else
-           'origin/destination columns are taken from the wrong airport alias', line=st.lineno)
-    # limit / offset
-    src = _body_text(qs)
-    ok = "sql += f' LIMIT {self.limit}'" in src and "sql += f' OFFSET {self.offset}'" in src
-    ctx.ob('C14-R6', qs, 'limit and offset appended after ordering', ok, 'LIMIT then OFFSET' if ok else 'limit/offset handling changed')
-    # frequent routes
-    ff = qm.func('FrequentFlightQuery.to_sql')
-    sql2, st2 = _sql_text(ff)
-    ok = sql2 is not None and 'COUNT(s.id) AS nflights' in sql2 and 'GROUP BY od_pair' in sql2 and \
-        'ORDER BY nflights DESC' in sql2 and 'substring(od_pair, 1, 3) AS airport1' in sql2 and \
-        'substring(od_pair, 4) AS airport2' in sql2
-    ctx.ob('C14-R4', ff, 'frequent routes: count per direction-independent pair, descending', bool(ok),
-           'GROUP BY od_pair ORDER BY nflights DESC' if ok else 'frequent-route SQL changed')
     ffr = qm.func('FrequentFlightQueryResult.from_row')
-    c = next(c for c in calls_in(ffr.node) if call_name(c) == 'cls')
-    got = {k.arg: norm(k.value) for k in c.keywords}
+    got = built(ffr, 3)
     ok = got == {'airport1': 'row[0]', 'airport2': 'row[1]', 'number_of_flights': 'row[2]'}
     ctx.ob('C14-R4', ffr, f'{got}', ok, 'fields follow the SELECT order' if ok else 'frequent-route fields read the wrong columns')
-    cq = qm.func('CountQuery.to_sql')
-    src = _body_text(cq)
-    ok = "sql = 'SELECT COUNT(s.id) FROM schedules s'" in src and 'JOIN flights f ON f.id = s.flight_id' in src
-    ctx.ob('C14-R4', cq, 'count query counts instances with the same joins', ok, 'COUNT(s.id)' if ok else 'count query changed')
+    rule_filter_evaluated(ctx)
+    rule_spatial(ctx)
 
-    # R6 dates
-    cc = qm.func('QueryBase._common_conditions')
-    src = _body_text(cc)
-    ok = "self._conditions.append('s.departure_timestamp >= ?')" in src and \
-        'self._params.append(int(date_to_timestamp(self.start_date).timestamp()))' in src
-    ctx.ob('C14-R6', cc, 'start date inclusive from midnight UTC', ok, '>= midnight(start)' if ok else 'start bound changed')
-    ok = "self._conditions.append('s.departure_timestamp < ?')" in src and \
-        'int((date_to_timestamp(self.end_date) + timedelta(days=1)).timestamp())' in src
-    ctx.ob('C14-R6', cc, 'end date inclusive: strictly before midnight of the following day', ok,
-           '< midnight(end + 1 day)' if ok else 'end bound changed (end date no longer inclusive, or a day too many)')
-    dt = qm.func('date_to_timestamp')
-    ok = 'pd.Timestamp(d, tzinfo=UTC)' in _body_text(dt)
-    ctx.ob('C14-R6', dt, 'dates are UTC midnights', ok, 'tzinfo=UTC' if ok else 'date conversion is no longer UTC midnight', nontrivial=False)
-    src = _body_text(qs)
-    ok = "'(s.day - ?) % ? = 0'" in src and '(self.start_date - date(1970, 1, 1)).days' in src and \
-        "'(s.day - (SELECT MIN(day) FROM schedules)) % ? = 0'" in src
-    ctx.ob('C14-R6', qs, 'every-nth-day anchored at the start day (or first day in the data)', ok,
-           '(day − anchor) % n = 0' if ok else 'every-nth-day selection changed')
-    # guard of the every_nth block
-    blk = [n for n in walk_no_nested(qs.node) if isinstance(n, ast.If) and 'every_nth' in norm(n.test) and not isinstance(first_stmt(n.body), ast.Raise)]
-    ok = bool(blk) and norm(blk[0].test) == 'self.every_nth is not None and self.every_nth > 1'
-    ctx.ob('C14-R6', qs, 'every_nth applied when > 1', ok, norm(blk[0].test) if ok else 'every_nth guard changed', nontrivial=False)
-    # sampling
-    ok = "'(random() + 9223372036854775808) / 18446744073709551615.0 < ?'" in src
-    ctx.ob('C14-R6', qs, 'sampling probability from SQLite random()', ok, 'uniform (0,1) < sample' if ok else 'sampling expression changed', nontrivial=False)
 
-    # R5 spatial rule
+# ---------------------------------------------------------------- R5 -----
+def rule_spatial(ctx):
+    """R5 — the documented compatibility rule of spatial filters ("a single combined spatial filter, or one optional
+    filter for the origin and/or one for the destination"), decided by running Filter._normalize in the checker's
+    interpreter on filters with every subset of the four region types set in each of the three positions, unset
+    written as None or as an empty list, set as a list or as a single string: it must refuse (ValueError) exactly the
+    combinations the documentation refuses, and leave single strings as one-element lists."""
+    import itertools
+    prog = ctx.prog
     fm = prog.module(F)
     nm = fm.func('Filter._normalize')
-    okd = single_def_value(nm.node, 'ok')
-    ok = okd is not None
-    if ok:
-        import itertools
-        from ..astutil import eval_pred
-        try:
-            for c_, o_, d_ in itertools.product(range(4), repeat=3):
-                want = (c_ == 1 and o_ == 0 and d_ == 0) or (c_ == 0 and o_ <= 1 and d_ <= 1)
-                if bool(eval_pred(okd, {'combined': c_, 'origin': o_, 'destination': d_})) != want:
-                    ok = False
-        except ValueError as e:
-            ctx.undecided('C14-R5', nm, norm(okd), f'cannot tabulate the rule: {e}')
-    kinds = [norm(c.args[0]) for c in calls_in(nm.node) if call_name(c) == 'self._spatial']
-    ok = ok and sorted(kinds) == ["'airport'", "'bounding_box'", "'continent'", "'country'"]
-    rs = [n for n in walk_no_nested(nm.node) if isinstance(n, ast.Raise) and any(norm(t) == 'not ok' for t, _, _ in guards_of(n))]
-    ok = ok and bool(rs)
-    ctx.ob('C14-R5', nm, 'spatial compatibility: one combined filter, or at most one origin and one destination', bool(ok),
-           'counts airport/country/continent/bounding_box in each of the three positions' if ok else
-           'the compatibility rule of spatial filters changed')
-    sp = fm.func('Filter._spatial')
-    src = _body_text(sp)
-    ok = "origin = getattr(self, 'origin_' + attr)" in src and "destination = getattr(self, 'destination_' + attr)" in src \
-        and 'both = getattr(self, attr)' in src
-    ctx.ob('C14-R5', sp, 'positions read the attribute of their own prefix', ok, 'both / origin_ / destination_' if ok else
-           'spatial positions read the wrong attribute', nontrivial=False)
+    cls = nm.cls
+    fields = list(cls.all_fields())
+    need = [pos + k for pos in _POSITIONS for k in _SPATIAL_KINDS]
+    if any(f not in fields for f in need):
+        ctx.undecided('C14-R5', nm, 'spatial fields', f'Filter has no field {[f for f in need if f not in fields][:3]}')
+    interp, _Rec, _Undecidable, _Raised = _c14_interp(prog)
+    # every count pattern (how many region types are set in the combined / origin / destination position: 0, 1, 2,
+    # and a few with 3 and 4), each with the region types rotated through the four kinds
+    K = _SPATIAL_KINDS
+    cases = []
+    for pat in list(itertools.product(range(3), repeat=3)) + [(3, 0, 0), (0, 3, 1), (1, 0, 4), (4, 4, 4), (0, 1, 3)]:
+        for r in range(4):
+            cases.append(tuple(tuple(K[(r + p + j) % 4] for j in range(cnt)) for p, cnt in enumerate(pat)))
+    n = 0
+    bad = None
+    strs_ok = True
+    regions = set()
+    try:
+        for i, (cs, os_, ds) in enumerate(dict.fromkeys(cases)):
+            vals = {f: None for f in fields}
+            was_str = []
+            for pos, chosen in zip(_POSITIONS, (cs, os_, ds)):
+                for j, k in enumerate(_SPATIAL_KINDS):
+                    if k == 'bounding_box':
+                        vals[pos + k] = ('<box>',) if k in chosen else None
+                    elif k in chosen:
+                        as_str = (i + j) % 3 == 0
+                        vals[pos + k] = 'XX' if as_str else ['XX', 'YY'][:1 + (i + j) % 2]
+                        if as_str:
+                            was_str.append(pos + k)
+                    else:
+                        vals[pos + k] = [] if (i + j) % 2 else None
+            rec = _Rec(cls.name, vals, cls)
+            want_ok = (len(cs) == 1 and not os_ and not ds) or (not cs and len(os_) <= 1 and len(ds) <= 1)
+            regions.add((min(len(cs), 2), min(len(os_), 2), min(len(ds), 2)))
+            interp.steps = 0
+            try:
+                interp.call_method(cls, '_normalize', rec, [], {})
+                got_ok = True
+            except _Raised as r:
+                if not isinstance(r.exc, ValueError):
+                    raise
+                got_ok = False
+            n += 1
+            if got_ok != want_ok and bad is None:
+                bad = (cs, os_, ds, want_ok)
+            if got_ok and any(rec.fields[f] != ['XX'] for f in was_str):
+                strs_ok = False
+    except (_Undecidable, _Raised) as ex:
+        ctx.undecided('C14-R5', nm, 'spatial compatibility rule', f'cannot run Filter._normalize on the table of filters: {ex}')
+    ctx.floor('C14-R5', len(regions), 27, 'count patterns (0 / 1 / more per position) of spatial filters evaluated')
+    why = (f'Filter._normalize accepts exactly the documented combinations on all {n} filters tried '
+           '(every count pattern of airport / country / continent / bounding_box per position)')
+    if bad is not None:
+        cs, os_, ds, want_ok = bad
+        desc = '; '.join(f'{nm_}: {", ".join(x) or "none"}' for nm_, x in (('combined', cs), ('origin', os_), ('destination', ds)))
+        why = (f'the compatibility rule of spatial filters changed: with [{desc}] the documentation '
+               + ('allows the filter but it is refused' if want_ok else 'refuses the filter but it is accepted (the conditions are then AND-ed silently)'))
+    ctx.ob('C14-R5', nm, 'spatial compatibility: one combined filter, or at most one origin and one destination', bad is None, why)
+    ctx.ob('C14-R5', nm, 'single strings become one-element lists', strs_ok,
+           'every str-valued region filter is a list after normalisation' if strs_ok else
+           'a region filter given as a single string is not turned into a one-element list: it is then iterated character by character',
+           nontrivial=False)
 
 
 # ---------------------------------------------------------------- R7 -----
@@ -1801,9 +2538,49 @@ def rule_cursor(ctx):
     ctx.ob('C14-R8', fi, 'SQL and parameters come from one to_sql() call', ok, 'sql, params = query.to_sql()' if ok else
            'SQL text and parameters are not taken from the same to_sql() call', nontrivial=False)
     yf = dbm.func('Database._yield_results')
-    src = ' '.join(norm(s_) for s_ in yf.node.body)
-    ok = 'for row in cur.execute(sql, params)' in src and 'yield result_type.from_row(row)' in src
-    ctx.ob('C14-R8', yf, 'every row is converted by the query\'s own result type', ok, 'result_type.from_row(row)' if ok else 'row conversion changed', nontrivial=False)
+    ok = _yields_converted_rows(prog, fi, yf)
+    ctx.ob('C14-R8', yf, 'every row is converted by the query\'s own result type', ok, 'result_type.from_row(row) for each row of cur.execute(sql, params)' if ok else 'row conversion changed', nontrivial=False)
+
+
+def _yields_converted_rows(prog, caller, yf) -> bool:
+    """what _yield_results yields is <result type>.from_row(row) for every row of <cursor>.execute(<sql>, <params>), all
+    four being its own parameters - as a for loop (with or without locals in between), `yield from` a generator / list
+    comprehension, or a returned generator expression"""
+    ps = [p for p in yf.params if p not in ('self', 'cls')]
+    if len(ps) != 4:
+        return False
+    cur, sql, par, rt = ps
+
+    def res(e):
+        return _resolve(yf, e)
+
+    def is_exec(e):
+        e = res(e)
+        return isinstance(e, ast.Call) and isinstance(e.func, ast.Attribute) and e.func.attr == 'execute' \
+            and norm(res(e.func.value)) == cur and [norm(res(a)) for a in e.args] == [sql, par] and not e.keywords
+
+    def is_conv(e, rowvar):
+        e = res(e)
+        return isinstance(e, ast.Call) and isinstance(e.func, ast.Attribute) and e.func.attr == 'from_row' \
+            and norm(res(e.func.value)) == rt and len(e.args) == 1 and not e.keywords and norm(res(e.args[0])) == rowvar
+
+    def is_comp(e):
+        e = res(e)
+        return isinstance(e, (ast.GeneratorExp, ast.ListComp)) and len(e.generators) == 1 and not e.generators[0].ifs \
+            and isinstance(e.generators[0].target, ast.Name) and is_exec(e.generators[0].iter) \
+            and is_conv(e.elt, e.generators[0].target.id)
+    outs = [x for x in walk_no_nested(yf.node) if isinstance(x, (ast.Yield, ast.YieldFrom, ast.Return)) and x.value is not None]
+    if len(outs) != 1:
+        return False
+    o = outs[0]
+    if isinstance(o, (ast.YieldFrom, ast.Return)):
+        return is_comp(o.value)
+    loops = [a for a in ancestors(o) if isinstance(a, ast.For)]
+    if len(loops) != 1 or guards_of(o, loops[0]) or not isinstance(loops[0].target, ast.Name) or loops[0].orelse:
+        return False
+    if any(isinstance(x, (ast.Break, ast.Continue)) for x in ast.walk(loops[0])):
+        return False
+    return is_exec(loops[0].iter) and is_conv(o.value, loops[0].target.id)
 
 
 def rule_criteria_values(ctx):
